@@ -78,6 +78,14 @@ package memberlist
 //@   loop 0 head broadcasted := false
 //@   at after@memberlist.KV.addReceivedMessage: assert !notified && !broadcasted
 //@   loop 0 end assert (notified <==> broadcasted)
+//@   # every entry that could be parsed is dealt with on its own (merged, or skipped when its codec is unknown): once an
+//@   # entry has been unmarshalled nothing stops the loop before the next entry
+//@   ghost var parsed int = 0
+//@   ghost var finished int = 0
+//@   at after@memberlist.KeyValuePair.Unmarshal: parsed := $r0 == nil ? parsed + 1 : parsed
+//@   loop 0 end finished := finished + 1
+//@   loop 0 invariant parsed == finished
+//@   at exit: assert every_entry_handled: parsed == finished
 //@
 //@ # frames of helpers that do not touch the store (assumed: by inspection they only use other fields)
 //@ assume func KV.GetCodec
